@@ -428,9 +428,11 @@ impl File {
             };
             let width = self.widths[char_dimens.width_index.get() as usize].0;
             // TODO: adjust based on the design units
-            let width = width + (c as i32 + 4) * 0o20_000_000;
+            let width = width.wrapping_add((c as i32 + 4) * 0o20_000_000);
             let add = |b: u8, m: u8| -> u8 {
-                (((b as i32) + (b as i32) + width) % (m as i32))
+                ((b as i32) + (b as i32))
+                    .wrapping_add(width)
+                    .rem_euclid(m as i32)
                     .try_into()
                     .expect("(i32 % u8) is always a u8")
             };
